@@ -80,25 +80,38 @@ def run_case(desc):
     # crystal it currently holds (a stale cache would repeat the previous answer)
     if desc.get("other") is not None:
         oc, of, on, ost = gx.conditioned(desc["other"])
-        if ost == "ok" and gx.well_conditioned(oc, of @ oc, on) is not None:
+        ds_o = gx.well_conditioned(oc, of @ oc, on) if ost == "ok" else None
+        if ds_o is not None:
             at_o = gx.make_atoms(oc, of @ oc, on)
             c2, pos, n2 = gx.apply_presentation(cell, frac, nums, p)
             at_a = gx.make_atoms(c2, pos, n2)
 
+            inplace = bool(desc["crystal"]["orbits"] and int(desc["crystal"]["orbits"][0]["Z"]) % 2 == 0)
+
             def reuse():
-                an = SymmetryAnalyzer(at_a, symmetry_tol=1e-3)
+                live = at_a.copy()
+                an = SymmetryAnalyzer(live, symmetry_tol=1e-3)
                 first = an.get_is_chiral()
-                an.set_system(at_o)
+                if inplace:
+                    # the same Atoms object modified in place (trajectory loop) and handed over again
+                    del live[list(range(len(live)))]
+                    live.extend(at_o)
+                    live.set_cell(at_o.get_cell(), scale_atoms=False)
+                    an.set_system(live)
+                else:
+                    an.set_system(at_o)
                 return first, int(an.get_space_group_number()), bool(an.get_is_chiral())
             ok, r = call(reuse)
             if not ok:
                 out.fail("returns-normally", "set_system history: %r" % r, key="exc-history:" + exc_key(r))
             else:
-                exp = r[1] in spgref.sohncke()
-                out.cls("history:set_system", "history:class-changes" if exp != bool(r[0]) else "history:class-same")
+                if r[1] != int(ds_o.number):
+                    out.fail("group-after-set_system", "after set_system() the analyser reports group %d, the crystal it now holds has group %d (independent search)" % (r[1], int(ds_o.number)))
+                exp = int(ds_o.number) in spgref.sohncke()
+                out.cls("history:set_system" + ("-inplace" if inplace else ""), "history:class-changes" if exp != bool(r[0]) else "history:class-same")
                 if r[2] != exp:
                     out.fail("chiral-iff-sohncke-after-set_system", "after set_system() the analyser holds a group-%d crystal (%sSohncke) but get_is_chiral() = %r (it answered %r for the previous crystal)"
-                             % (r[1], "" if exp else "not ", r[2], r[0]))
+                             % (int(ds_o.number), "" if exp else "not ", r[2], r[0]))
     if flags[0][0] == flags[1][0] and flags[0][1] != flags[1][1]:
         out.fail("presentation-independent", "flag %r in the standard setting, %r after %s" % (flags[0][1], flags[1][1], gx.pres_class(p)))
     _COVER[flags[0][0]] = _COVER.get(flags[0][0], 0) + 1
